@@ -22,6 +22,36 @@ def seq_allocators(P):
     return out
 
 
+def wire_append_fns(P):
+    wire = set()
+    for f in P.repo_functions():
+        for i in f.calls():
+            if i.callee and i.callee.startswith("llvm.memcpy"):
+                for t in flow.origins(f, i.args[0]):
+                    if t[0] == "gaddr" and t[1].split(".u")[0] == "buffer" and P.globals.get(t[1], {}).get("size") == 256:
+                        wire.add(f.name)
+    return wire
+
+
+def priv_rule(chk, P, ctor_names, wire, rid):
+    """shared with C18: each call encodes its own message only if the assembly buffer is private to the call"""
+    chk.rule(rid, "the message being numbered is assembled in storage private to the call (not in an object shared between senders)")
+    for name in ctor_names:
+        fn = P.functions[name]
+        for h in [i for i in fn.calls() if rules.call_reaches(P, i, wire)]:
+            shared = []
+            for a in h.args:
+                if a.get("k") in ("inst", "global", "cexpr"):
+                    for t in flow.origins(fn, a):
+                        if t[0] == "gaddr" and not P.globals.get(t[1], {}).get("const"):
+                            shared.append(t[1])
+            if shared:
+                chk.violation(rid, name, shared[0], h.loc(), "the message handed off at line %d is assembled in the shared object '%s' while no lock spans allocation and hand-off: concurrent senders overwrite each other's numbered message" % (h.line, shared[0]))
+            else:
+                chk.ok(rid, 1, {"constructor": name, "handoff": h.loc()})
+
+
+
 def run(chk, w):
     from . import c01 as _c01
     _c01.prepare(w)
@@ -126,20 +156,7 @@ def run(chk, w):
     from . import c01
     roles01 = c01.send_roles(w)
     c01.nodrop_rule(chk, w, roles01, "C05-NODROP")
-    chk.rule("C05-PRIV", "the message being numbered is assembled in storage private to the call (not in an object shared between senders)")
-    for name in sorted(constructors):
-        fn = P.functions[name]
-        for h in [i for i in fn.calls() if rules.call_reaches(P, i, wire)]:
-            shared = []
-            for a in h.args:
-                if a.get("k") in ("inst", "global", "cexpr"):
-                    for t in flow.origins(fn, a):
-                        if t[0] == "gaddr" and not P.globals.get(t[1], {}).get("const"):
-                            shared.append(t[1])
-            if shared:
-                chk.violation("C05-PRIV", name, shared[0], h.loc(), "the message handed off at line %d is assembled in the shared object '%s' while no lock spans allocation and hand-off: concurrent senders overwrite each other's numbered message" % (h.line, shared[0]))
-            else:
-                chk.ok("C05-PRIV", 1, {"constructor": name, "handoff": h.loc()})
+    priv_rule(chk, P, sorted(constructors), wire, "C05-PRIV")
 
     # ---- INV: stores through the counter pointer
     chk.rule("C05-INV", "every store to a sequence counter is a constant in [1,255] or old+1 on a path that excludes old == 255")
